@@ -310,7 +310,11 @@ SEG_KINDS = ['a', 'b', 'v.1', '{p}', '{q}', '{p:int}', '{p:int(2)}', '{p:int(min
 CORE_KINDS = ['a', 'b', '{p}', '{q}', '{p:int}', '{p}-{q}', 'x{p}', '{r:path}']
 # two multi-field segments with converters on ONE route (distinct field names), converter bounds of zero
 EXTRA = ['{s:int}_{t}', '{p}.{q:int}/{s:int}_{t}', '{p}.{q:int}/{s:int}_{t}/a', '{p}.{q:int}/{s}', 'x{p}/{s:int}_{t}',
-         '{p:int(min=0)}', '{p:int(max=0)}', 'a/{p:int(min=0)}', '{p:int(min=0)}-{q}', '{p:int(min=0, max=0)}']
+         '{p:int(min=0)}', '{p:int(max=0)}', 'a/{p:int(min=0)}', '{p:int(min=0)}-{q}', '{p:int(min=0, max=0)}',
+         # a single converter field next to (below / above) a multi-field segment with two converters
+         '{s:int}_{u:int}', '{s:int}_{u:int}/{p:int}', '{p:int}/{s:int}_{u:int}', 'a/{s:int}_{u:int}']
+# depth-3 shapes (looked up with paths of up to 3 segments): literal, converter field, multi-field with converters
+EXTRA3 = ['a/{p:int}/{s:int}_{u:int}', 'a/{p:int}/{s:int}_{t}', 'a/{p:int}/{s:int}_{t}/b', 'a/{p}/{s:int}_{t}', 'a/{p:int}/{q}']
 REJECTED = ['{p}/{p}', '{1x}', '{class}', '{p:nope}', '{p:int(x=1)}', 'a b', '{p:}', 'new/{r:path}/c', 'n2/{s}{r:path}',
             '{z}/{r:path}/c', 'a/{p}{r:path}', '{p}/n3/{r:path}/{q}']
 
@@ -324,7 +328,7 @@ def reps_for_segment(seg):
     if len(pieces) == 1:
         conv = flds[0][2]
         if conv == 'int':
-            return ['7', '07', '12', '-7', '+7', ' 7', '1_0', 'x', '0', '-1']
+            return ['7', '07', '12', '-7', '+7', ' 7', '1_0', 'x', '0', '-1', '\u00b2']   # SUPERSCRIPT TWO: isdigit(), not int()
         if conv == 'uuid':
             return [UUID_OK, UUID_OK[:-1] + 'g']
         if conv == 'path':
@@ -481,6 +485,11 @@ def gen_histories(tier, seed):
     for a in core:
         for b in core:
             jobs.append((('@triple', a, b), 2))   # (a, b, c) for every c in core
+    for a in EXTRA3:
+        jobs.append(((a,), 3))
+        for b in EXTRA3 + ['a/{p:int}', '{p}/{q}/{s}']:
+            if a != b:
+                jobs.append(((a, b), 3))
     if tier == 'thorough':
         deep = templates(['a', '{p}', '{q:int}', 'x{p}', '{r:path}'], 3)
         for a in deep:
